@@ -177,13 +177,16 @@ def apply_library(kind, params, F):
     return g.VariableCompression(F, compression_graph(*params), "xor" if kind == "xorcomp" else "maj")
 
 
-GRAPH_REPS = ("cnfgen", "cnfgen-repeated", "nx", "nx-multi")
+GRAPH_REPS = ("cnfgen", "cnfgen-repeated", "nx", "nx-multi", "user-class")
 
 
 def compression_graph(nbrs, R, rep="cnfgen"):
     """The same bipartite graph in several representations; listing an edge twice does not make it two edges."""
     from cnfgen.graphs import BipartiteGraph
     edges = [(u, v) for u, ns in enumerate(nbrs, start=1) for v in ns]
+    if rep == "user-class":
+        from ..ducks import computed_bipartite
+        return computed_bipartite(len(nbrs), R, edges)      # edges computed by overridden methods, nothing stored
     if rep in ("cnfgen", "cnfgen-repeated"):
         B = BipartiteGraph(len(nbrs), R)
         for (u, v) in (edges if rep == "cnfgen" else list(reversed(edges)) + edges[::2]):
@@ -499,6 +502,8 @@ def workload(tier, seed):
                 yield "compression", {"L": L, "R": R, "masks": masks[i:i + 32], "fn": fn}
     for i in range(8 if tier == "quick" else 240):
         yield "cli", {"rseed": seed * 1000 + i, "count": 6}
+    for i in range(8 if tier == "quick" else 200):
+        yield "edited_intermediate", {"rseed": seed * 1000 + i, "count": 40}
     for kind in ("xor", "xorcomp"):
         for k in ((13, 16, 17, 18) if tier == "quick" else range(12, 21)):
             yield "wide_gadget", {"kind": kind, "k": k, "rseed": seed}
@@ -537,6 +542,50 @@ def gadget_value(kind, params, N, a, v):
     nbrs = params[0][v]
     cnt = sum(1 for b in nbrs if b in a)
     return cnt % 2 == 1 if kind == "xorcomp" else 2 * cnt >= len(nbrs)
+
+
+def case_edited_intermediate(ctx, rseed, count):
+    """F -> T = t1(F); then F and/or T are edited by their owner (F gains a variable and a clause; T gains unused
+    variables or a clause); then U = t2(T).  U must be t2 of T *as it now is*, whatever T's ancestry."""
+    g = lib()
+    r = ctx.rng("c05edited", rseed)
+    firsts = [("flip", []), ("xor", [2]), ("or", [2]), ("ite", []), ("lift", [1]), ("one", [2]), ("eq", [2])]
+    seconds = [("xor", [2]), ("or", [2]), ("flip", []), ("ite", []), ("one", [2]), ("maj", [3]), ("lift", [2]), ("exact", [2, 1])]
+    for _ in range(count):
+        N = r.randint(1, 2)
+        cls = [[r.choice([1, -1]) * r.randint(1, N) for _ in range(r.randint(1, 2))] for _ in range(r.randint(1, 2))]
+        k1, p1 = r.choice(firsts)
+        F = build_input(N, cls)
+        st, T = ctx.call(apply_library, k1, p1, F)
+        if st == "exc":
+            continue
+        edits = []
+        if r.random() < 0.6:
+            v = F.new_variable("late")
+            F.add_clause([v])
+            edits.append("the original gains a variable and a clause")
+        if r.random() < 0.6:
+            T.update_variable_number(T.number_of_variables() + r.randint(1, 2))
+            edits.append("the intermediate gains unused variables")
+        if r.random() < 0.4 and T.number_of_variables():
+            T.add_clause([r.choice([1, -1]) * r.randint(1, T.number_of_variables())])
+            edits.append("the intermediate gains a clause")
+        if not edits:
+            continue
+        NT, clsT = T.number_of_variables(), [list(c) for c in T]
+        cands = [(k2, p2) for (k2, p2) in seconds if new_numvar(k2, p2, NT) <= 18 and not too_costly(k2, p2, clsT)
+                 and len(clsT) * (4 ** max([len(c) for c in clsT] or [0])) <= 3000]
+        if not cands:
+            continue
+        k2, p2 = r.choice(cands)
+        label = "%s%r of [%s%r of CNF(%d vars, %r), then: %s]" % (k2, p2, k1, p1, N, cls, "; ".join(edits))
+        st, U = ctx.call(apply_library, k2, p2, T)
+        ctx.count("library_calls")
+        ctx.count("transformations_of_edited_intermediates")
+        if st == "exc":
+            ctx.violation("%s:raises:%s" % (k2, type(U).__name__), "%s raised %r" % (label, U))
+            continue
+        judge(ctx, NT, clsT, k2, p2, U, "library-after-edits", label)
 
 
 def case_wide_gadget(ctx, kind, k, rseed):
